@@ -27,6 +27,9 @@ type Case struct {
 
 var contexts = []string{"stmt", "print", "pattern", "cond"}
 
+// the positions where a builtin takes a regular expression: the argument is an ordinary expression there too
+var argContexts = []string{"arg-split", "arg-sub", "arg-match", "arg-gsub"}
+
 func wrap(ctx, s string) string {
 	switch ctx {
 	case "stmt":
@@ -37,6 +40,14 @@ func wrap(ctx, s string) string {
 		return s + " { }\n" + awkgen.FuncF
 	case "cond":
 		return "BEGIN { if (" + s + ") x }\n" + awkgen.FuncF
+	case "arg-split":
+		return "BEGIN { split(s, parts, " + s + ") }\n" + awkgen.FuncF
+	case "arg-sub":
+		return "BEGIN { sub(" + s + ", r, t) }\n" + awkgen.FuncF
+	case "arg-gsub":
+		return "BEGIN { gsub(" + s + ", r) }\n" + awkgen.FuncF
+	case "arg-match":
+		return "BEGIN { match(s, " + s + ") }\n" + awkgen.FuncF
 	}
 	panic("bad ctx " + ctx)
 }
@@ -64,6 +75,16 @@ func extract(ctx string, p *awk.Program) (*awk.Node, string) {
 			return nil, fmt.Sprintf("print got %d arguments, expected 1", len(s.A))
 		}
 		return s.A[0], ""
+	case "arg-split", "arg-sub", "arg-gsub", "arg-match":
+		if len(p.Begin) != 1 || len(p.Begin[0]) != 1 || p.Begin[0][0].K != awk.ExprStmt || p.Begin[0][0].A[0].K != awk.Call {
+			return nil, "expected exactly one builtin call statement in BEGIN"
+		}
+		call := p.Begin[0][0].A[0]
+		idx, n := map[string]int{"arg-split": 2, "arg-sub": 0, "arg-gsub": 0, "arg-match": 1}[ctx], map[string]int{"arg-split": 3, "arg-sub": 3, "arg-gsub": 2, "arg-match": 2}[ctx]
+		if len(call.A) != n {
+			return nil, fmt.Sprintf("%s got %d arguments, expected %d", call.Name, len(call.A), n)
+		}
+		return call.A[idx], ""
 	case "pattern":
 		if len(p.Actions) != 1 || len(p.Actions[0].Pattern) != 1 {
 			return nil, "expected one rule with one pattern"
@@ -559,4 +580,56 @@ func runSign(x *h.Ctx, c SignCase) string {
 
 func init() {
 	h.Enum("sign_after_binary_operator", enumSign, runSign)
+}
+
+// ---------------------------------------------------------------------------
+// the regular-expression argument of split, sub, gsub and match is an expression like any other: in particular
+// one that starts with a regex literal (which then stands for $0 ~ /re/, as everywhere else)
+
+func genArg(t *rapid.T) Case {
+	ctx := rapid.SampledFrom(argContexts).Draw(t, "ctx")
+	depth := rapid.IntRange(1, 4).Draw(t, "depth")
+	tree := awkgen.ExprTree(t, depth, false)
+	if rapid.IntRange(0, 2).Draw(t, "lead") != 0 {
+		// the first token of the argument is a regex literal
+		re := awk.RegexN(rapid.SampledFrom([]string{"re", "x", "a+", "[/]", "=", "a|b"}).Draw(t, "re"))
+		switch op := rapid.SampledFrom([]string{" ", " ", "+", "-", "*", "<", "==", "~", "&&", "||", "?:", "^"}).Draw(t, "op"); op {
+		case "?:":
+			tree = awk.CondN(re, tree, awk.NumN(2))
+		default:
+			tree = awk.BinN(re, op, tree)
+		}
+	}
+	return Case{Tree: tree, Ctx: ctx}
+}
+
+func startsWithRegexOperand(n *awk.Node) bool {
+	for n != nil {
+		switch n.K {
+		case awk.Regex:
+			return true
+		case awk.Binary, awk.Cond:
+			n = n.A[0]
+		default:
+			return false
+		}
+	}
+	return false
+}
+
+func runArg(x *h.Ctx, c Case) string {
+	if c.Tree.K == awk.Regex {
+		x.Discard("a lone regex literal (the builtin takes it as the regular expression itself)")
+		return ""
+	}
+	lead := startsWithRegexOperand(c.Tree)
+	msg := runTree(x, c)
+	if lead {
+		x.Class("argument-starts-with-a-regex-literal")
+	}
+	return msg
+}
+
+func init() {
+	h.Prop("builtin_regex_arguments", 12000, 300000, genArg, runArg)
 }
